@@ -1,7 +1,7 @@
 (* P_Canon.v — layout-invariance theorems about Canon.v (goxmldsig's canonicalisers as a function), for all trees. *)
 From Coq Require Import Permutation Sorted Lia.
 From Coq Require OrderedTypeEx.
-From V Require Import Base Time Escape EscapeProofs Xml Ns CorrDiff Build Dsig Canon.
+From V Require Import Base Time Escape EscapeProofs Xml Ns Schema CorrDiff Build Dsig P_Dsig P_DsigExact Canon.
 Local Open Scope string_scope.
 Local Open Scope list_scope.
 
@@ -635,4 +635,349 @@ Theorem canon_attribute_order_matters_for_namesakes :
 Proof.
   exists (ex_namesake true), (ex_namesake false). split; [|repeat split; try (vm_compute; reflexivity); vm_compute; intros H; discriminate H].
   cbn. repeat split; try reflexivity. apply perm_swap.
+Qed.
+
+(* ================================================================ (b) redundant name-space declarations, inclusive algorithms *)
+(* the key under which canonicalPrepInner remembers a declaration *)
+Definition decl_key (a : attr) : string := if at_space a =?s "xmlns" then ("xmlns:" ++ at_key a)%string else "xmlns".
+(* the declaration repeats what is in force: canonicalPrepInner neither writes nor records it *)
+Definition decl_redundant (seen : list (string * string)) (d : attr) : bool :=
+  if at_space d =?s "xmlns" then
+    match assoc_get (decl_key d) seen with Some u => at_val d =?s u | None => false end
+  else at_val d =?s match assoc_get "xmlns" seen with Some u => u | None => "" end.
+
+Lemma assoc_get_set_other {A} k k' (v : A) l : k <> k' -> assoc_get k (assoc_set k' v l) = assoc_get k l.
+Proof.
+  intros N. induction l as [|[k0 v0] r IH]; cbn [assoc_set assoc_get].
+  - apply String.eqb_neq in N. rewrite N. reflexivity.
+  - destruct (k' =?s k0) eqn:E; cbn [assoc_get].
+    + apply String.eqb_eq in E. subst k0. apply String.eqb_neq in N. rewrite N. reflexivity.
+    + rewrite IH. reflexivity.
+Qed.
+
+Lemma decl_redundant_set seen d k v :
+  is_ns_decl d = true -> decl_key d <> k -> decl_redundant (assoc_set k v seen) d = decl_redundant seen d.
+Proof.
+  intros D N. unfold decl_redundant. destruct (at_space d =?s "xmlns") eqn:S.
+  - rewrite assoc_get_set_other by exact N. reflexivity.
+  - unfold decl_key in N. rewrite S in N. rewrite assoc_get_set_other by exact N. reflexivity.
+Qed.
+
+Lemma prep_attrs_redundant_here d s2 seen :
+  is_ns_decl d = true -> decl_redundant seen d = true -> prep_attrs (d :: s2) seen = prep_attrs s2 seen.
+Proof.
+  intros D R. unfold is_ns_decl in D. unfold decl_redundant, decl_key in R. cbn [prep_attrs]. unfold Dsig.is_default_decl.
+  destruct (at_space d =?s "xmlns") eqn:S; cbn [negb andb].
+  - destruct (assoc_get ("xmlns:" ++ at_key d) seen) as [u|]; [|discriminate R]. rewrite R. reflexivity.
+  - cbn [orb] in D. rewrite D. cbn [negb]. rewrite R. reflexivity.
+Qed.
+
+Lemma prep_attrs_redundant : forall s1 d s2 seen,
+  is_ns_decl d = true ->
+  (forall a, In a s1 -> is_ns_decl a = true -> decl_key a <> decl_key d) ->
+  decl_redundant seen d = true ->
+  prep_attrs (s1 ++ d :: s2) seen = prep_attrs (s1 ++ s2) seen.
+Proof.
+  induction s1 as [|a s1 IH]; intros d s2 seen D K R.
+  - apply prep_attrs_redundant_here; assumption.
+  - assert (K' : forall b, In b s1 -> is_ns_decl b = true -> decl_key b <> decl_key d) by (intros b Hb; apply K; right; exact Hb).
+    assert (Ka : is_ns_decl a = true -> decl_key d <> decl_key a) by (intros Ha Q; apply (K a (or_introl eq_refl) Ha); symmetry; exact Q).
+    cbn [app prep_attrs]. unfold Dsig.is_default_decl.
+    destruct (negb (at_space a =?s "xmlns") && negb ((at_space a =?s "") && (at_key a =?s "xmlns"))) eqn:C.
+    + rewrite (IH d s2 seen D K' R). reflexivity.
+    + assert (Da : is_ns_decl a = true).
+      { unfold is_ns_decl. destruct (at_space a =?s "xmlns"); [reflexivity|]. cbn in C. apply negb_false_iff in C. exact C. }
+      specialize (Ka Da). unfold decl_key in Ka at 2.
+      destruct (at_space a =?s "xmlns") eqn:Sa.
+      * destruct (assoc_get ("xmlns:" ++ at_key a) seen) as [u|].
+        -- destruct (at_val a =?s u).
+           ++ apply IH; assumption.
+           ++ rewrite (IH d s2 (assoc_set _ _ seen) D K') by (rewrite decl_redundant_set; assumption). reflexivity.
+        -- rewrite (IH d s2 (assoc_set _ _ seen) D K') by (rewrite decl_redundant_set; assumption). reflexivity.
+      * destruct (negb (at_val a =?s match assoc_get "xmlns" seen with Some u => u | None => "" end)).
+        -- rewrite (IH d s2 (assoc_set _ _ seen) D K') by (rewrite decl_redundant_set; assumption). reflexivity.
+        -- apply IH; assumption.
+Qed.
+
+(* removing one element from a sorted slice *)
+Lemma desc_remove : forall a x b, desc (a ++ x :: b) -> desc (a ++ b).
+Proof.
+  induction a as [|h a IH]; intros x b S; cbn [app] in *.
+  - inversion S; assumption.
+  - inversion S as [|? ? S' F]; subst. constructor; [eapply IH; exact S'|].
+    apply Forall_app in F as [F1 F2]. inversion F2; subst. apply Forall_app. split; assumption.
+Qed.
+
+Lemma sort_attrs_insert pre d post :
+  sort_total (pre ++ d :: post) = true ->
+  exists s1 s2, sort_attrs (pre ++ post) = s1 ++ s2 /\ sort_attrs (pre ++ d :: post) = s1 ++ d :: s2.
+Proof.
+  intros T. pose proof (sort_total_PW _ T) as H.
+  assert (H0 : PW (pre ++ post)).
+  { destruct H as [ND P]. split; [eapply NoDup_remove_1; exact ND|].
+    intros x y Hx Hy. apply P; apply in_or_app; [apply in_app_or in Hx as [Hx|Hx] | apply in_app_or in Hy as [Hy|Hy]]; auto; right; right; assumption. }
+  destruct (gfold_desc (pre ++ d :: post) [] H (SSorted_nil _)) as [D1 P1].
+  destruct (gfold_desc (pre ++ post) [] H0 (SSorted_nil _)) as [D0 P0]. cbn [app] in P1, P0.
+  assert (Hin : In d (gfold (pre ++ d :: post) [])).
+  { eapply Permutation_in; [apply Permutation_sym; exact P1|]. apply in_or_app. right. left. reflexivity. }
+  apply in_split in Hin as (g1 & g2 & E). rewrite E in D1, P1.
+  assert (E0 : gfold (pre ++ post) [] = g1 ++ g2).
+  { apply desc_unique; [exact D0 | eapply desc_remove; exact D1|]. rewrite P0. symmetry. eapply Permutation_app_inv. exact P1. }
+  exists (rev g2), (rev g1). rewrite !sort_attrs_gsort by assumption. rewrite E, E0, !rev_app_distr. cbn [rev]. rewrite <- app_assoc. split; reflexivity.
+Qed.
+
+Lemma sort_attrs_in l x : PW l -> In x (sort_attrs l) -> In x l.
+Proof.
+  intros H Hx. rewrite sort_attrs_gsort in Hx by exact H. apply in_rev in Hx.
+  destruct (gfold_desc l [] H (SSorted_nil _)) as [_ P]. eapply Permutation_in; [exact P | exact Hx].
+Qed.
+
+(* one element: a declaration that repeats what is in force, at any position among the attributes *)
+Theorem canonical_prep_redundant_decl : forall seen c sp tg pre d post kids,
+  sort_total (pre ++ d :: post) = true -> is_ns_decl d = true -> decl_redundant seen d = true ->
+  canonical_prep seen c (Elem sp tg (pre ++ d :: post) kids) = canonical_prep seen c (Elem sp tg (pre ++ post) kids).
+Proof.
+  intros seen c sp tg pre d post kids T D R.
+  destruct (sort_attrs_insert pre d post T) as (s1 & s2 & E0 & E1).
+  rewrite !canonical_prep_elem, E0, E1.
+  rewrite prep_attrs_redundant; [reflexivity | exact D | | exact R].
+  intros a Ha Da Q. pose proof (sort_total_PW _ T) as [ND P].
+  assert (Ha' : In a (pre ++ d :: post)).
+  { assert (In a (sort_attrs (pre ++ d :: post))) by (rewrite E1; apply in_or_app; left; exact Ha).
+    eapply sort_attrs_in; [apply sort_total_PW; exact T | assumption]. }
+  assert (Hd : In d (pre ++ d :: post)) by (apply in_or_app; right; left; reflexivity).
+  assert (N : a <> d).
+  { intros ->. assert (NDs : NoDup (s1 ++ d :: s2)).
+    { rewrite <- E1. rewrite sort_attrs_gsort by (split; assumption).
+      destruct (gfold_desc (pre ++ d :: post) [] (conj ND P) (SSorted_nil _)) as [_ Pg].
+      eapply Permutation_NoDup; [|exact ND]. rewrite <- Permutation_rev. symmetry. exact Pg. }
+    apply NoDup_remove_2 in NDs. apply NDs. apply in_or_app. left. exact Ha. }
+  specialize (P a d Ha' Hd N). unfold attr_clash in P. unfold decl_key in Q. unfold is_ns_decl in D, Da.
+  destruct (at_space a =?s "xmlns") eqn:Sa, (at_space d =?s "xmlns") eqn:Sd.
+  - apply String.eqb_eq in Sa, Sd. injection Q as Q. rewrite Q, Sa, Sd, !String.eqb_refl in P. discriminate P.
+  - discriminate Q.
+  - discriminate Q.
+  - cbn [orb] in D, Da. apply andb_true_iff in D as [D1 D2]. apply andb_true_iff in Da as [A1 A2].
+    apply String.eqb_eq in D1, D2, A1, A2. rewrite A1, A2, D1, D2 in P. discriminate P.
+Qed.
+
+(* ---- the same anywhere in a tree: what canonicalPrepInner has recorded when it reaches the element at path p ---- *)
+Fixpoint seen_at (seen : list (string * string)) (n : node) (p : list nat) : option (list (string * string)) :=
+  match p with
+  | [] => Some seen
+  | i :: r =>
+      match n with
+      | Elem _ _ attrs kids =>
+          match nth_error kids i with
+          | Some k => seen_at (snd (prep_attrs (sort_attrs attrs) seen)) k r
+          | None => None
+          end
+      | _ => None
+      end
+  end.
+
+Lemma cprep_kids_replace seen c : forall kids i k k',
+  nth_error kids i = Some k -> canonical_prep seen c k' = canonical_prep seen c k -> is_comment k' = is_comment k ->
+  cprep_kids seen c (replace_nth i k' kids) = cprep_kids seen c kids.
+Proof.
+  induction kids as [|x r IH]; intros i k k' N E C; [destruct i; discriminate N|].
+  destruct i as [|j]; cbn [nth_error replace_nth cprep_kids] in *.
+  - injection N as ->. rewrite C, E. reflexivity.
+  - rewrite (IH j k k' N E C). reflexivity.
+Qed.
+
+Lemma is_comment_subst_at k r new : r <> [] -> is_comment (subst_at k r new) = is_comment k.
+Proof.
+  intros N. destruct r as [|i r]; [congruence|]. destruct k as [sp tg attrs kids| | | | ]; try reflexivity.
+  cbn [subst_at]. destruct (nth_error kids i); reflexivity.
+Qed.
+
+Lemma canonical_prep_congr c : forall p n seen old new s,
+  node_at n p = Some old -> seen_at seen n p = Some s ->
+  canonical_prep s c new = canonical_prep s c old -> is_comment new = is_comment old ->
+  canonical_prep seen c (subst_at n p new) = canonical_prep seen c n.
+Proof.
+  induction p as [|i r IH]; intros n seen old new s N S E C.
+  - cbn in N, S. injection N as <-. injection S as <-. exact E.
+  - destruct n as [sp tg attrs kids| | | | ]; try (cbn in S; discriminate S).
+    cbn [node_at kids_of] in N. cbn [seen_at] in S. cbn [subst_at].
+    destruct (nth_error kids i) as [k|] eqn:K; [|discriminate N].
+    rewrite !canonical_prep_elem. f_equal.
+    apply (cprep_kids_replace _ c kids i k); [exact K | eapply IH; eassumption|].
+    destruct r as [|j r']; [|apply is_comment_subst_at; discriminate].
+    cbn in N. injection N as <-. exact C.
+Qed.
+
+(* (b), inclusive algorithms: re-declaring, on the element at ANY path p, a prefix (or the default name space) with the
+   URI that is in force there does not change the canonical bytes -- provided SortedAttrs.Less can tell the attributes
+   of that element apart (see the refutation below) *)
+Theorem canon_ignores_redundant_declaration : forall a root p sp tg pre d post kids s,
+  inclusive a = true ->
+  node_at root p = Some (Elem sp tg (pre ++ post) kids) -> seen_at [] root p = Some s ->
+  sort_total (pre ++ d :: post) = true -> is_ns_decl d = true -> decl_redundant s d = true ->
+  canon_model a (subst_at root p (Elem sp tg (pre ++ d :: post) kids)) = canon_model a root.
+Proof.
+  intros a root p sp tg pre d post kids s I N S T D R.
+  assert (E : forall c, canonical_prep [] c (subst_at root p (Elem sp tg (pre ++ d :: post) kids)) = canonical_prep [] c root).
+  { intros c. eapply canonical_prep_congr; [exact N | exact S | apply canonical_prep_redundant_decl; assumption | reflexivity]. }
+  unfold canon_model, canon_prep. destruct a; try discriminate I; rewrite E; reflexivity.
+Qed.
+
+Definition ex_redecl_root : node :=
+  Elem "a" "R" [ at_ "xmlns" "a" "urn:x:a"; at_ "" "xmlns" "urn:d" ]
+    [ Comment "c"; Elem "a" "K" [ at_ "" "id" "1"; at_ "a" "k" "2" ] [ Elem "" "L" [] [] ] ].
+Example canon_ignores_redundant_declaration_example :
+  let root' := subst_at ex_redecl_root [1%nat] (Elem "a" "K" [ at_ "" "id" "1"; at_ "xmlns" "a" "urn:x:a"; at_ "a" "k" "2" ] [ Elem "" "L" [] [] ]) in
+  let root'' := subst_at ex_redecl_root [1%nat; 0%nat] (Elem "" "L" [ at_ "" "xmlns" "urn:d" ] []) in
+  node_at ex_redecl_root [1%nat] = Some (Elem "a" "K" ([ at_ "" "id" "1" ] ++ [ at_ "a" "k" "2" ]) [ Elem "" "L" [] [] ]) /\
+  (exists s, seen_at [] ex_redecl_root [1%nat] = Some s /\ decl_redundant s (at_ "xmlns" "a" "urn:x:a") = true) /\
+  root' <> ex_redecl_root /\
+  canon_model (C11 false) root' = canon_model (C11 false) ex_redecl_root /\
+  canon_model (C11 true) root'' = canon_model (C11 true) ex_redecl_root /\
+  canon_model (C11 false) ex_redecl_root = Some "<a:R xmlns=""urn:d"" xmlns:a=""urn:x:a""><a:K id=""1"" a:k=""2""><L></L></a:K></a:R>".
+Proof.
+  cbv zeta. split; [reflexivity|]. split; [eexists; split; [reflexivity | vm_compute; reflexivity]|].
+  split; [vm_compute; intros H; discriminate H|]. repeat split; vm_compute; reflexivity.
+Qed.
+
+(* WITHOUT the premise: a redundant declaration brings the prefix's URI into the slice SortedAttrs.Less reads, and two
+   namesake attributes that were "equal" (document order kept) are now ordered -- the canonical bytes change by more
+   than the dropped declaration *)
+Theorem canon_redundant_declaration_reorders_namesakes :
+  exists root p sp tg pre d post kids s,
+    node_at root p = Some (Elem sp tg (pre ++ post) kids) /\ seen_at [] root p = Some s /\
+    is_ns_decl d = true /\ decl_redundant s d = true /\
+    canon_model (C11 false) root = Some "<r xmlns:a=""urn:x:a"" xmlns:b=""urn:x:b""><e a:k=""2"" b:k=""1""></e></r>" /\
+    canon_model (C11 false) (subst_at root p (Elem sp tg (pre ++ d :: post) kids))
+      = Some "<r xmlns:a=""urn:x:a"" xmlns:b=""urn:x:b""><e b:k=""1"" a:k=""2""></e></r>".
+Proof.
+  exists (ex_namesake false), [0%nat], "", "e", [], (at_ "xmlns" "a" "urn:x:a"), [ at_ "a" "k" "2"; at_ "b" "k" "1" ], [].
+  eexists. split; [reflexivity|]. split; [reflexivity|]. repeat split; vm_compute; reflexivity.
+Qed.
+
+(* exclusive c14n: declarations nobody visibly utilises are dropped wherever they stand (Example; for all trees this is
+   exercised by the correspondence run only) *)
+Example exc_drops_unused_declarations_example :
+  canon_model (CExc "" false)
+    (Elem "a" "R" [ at_ "xmlns" "u" "urn:unused"; at_ "xmlns" "a" "urn:x:a"; at_ "xmlns" "b" "urn:x:b" ]
+       [ Elem "" "K" [ at_ "xmlns" "v" "urn:unused2"; at_ "b" "k" "1"; at_ "xmlns" "a" "urn:x:a" ] [ Elem "a" "L" [] [] ] ])
+  = Some "<a:R xmlns:a=""urn:x:a""><K xmlns:b=""urn:x:b"" b:k=""1""><a:L></a:L></K></a:R>".
+Proof. vm_compute. reflexivity. Qed.
+
+(* ================================================================ (e) through the signature model (Dsig.v with canon := canon_model) *)
+(* removing the signature element at path p from two trees that differ by attribute order gives two trees that differ by
+   attribute order *)
+Lemma kids_permuted_nth : forall l l' i k, kids_permuted l l' -> nth_error l i = Some k ->
+  exists k', nth_error l' i = Some k' /\ attrs_permuted k k'.
+Proof.
+  induction l as [|x r IH]; intros [|x' r'] i k P N; try contradiction; [destruct i; discriminate N|].
+  cbn [kids_permuted] in P. destruct P as [Px Pr]. destruct i as [|j]; cbn [nth_error] in *.
+  - injection N as <-. eauto.
+  - eapply IH; eassumption.
+Qed.
+Lemma kids_permuted_remove : forall l l' i, kids_permuted l l' -> kids_permuted (remove_nth i l) (remove_nth i l').
+Proof.
+  induction l as [|x r IH]; intros [|x' r'] i P; try contradiction; [destruct i; exact I|].
+  cbn [kids_permuted] in P. destruct P as [Px Pr]. destruct i as [|j]; cbn [remove_nth kids_permuted]; [exact Pr | split; [exact Px | apply IH; exact Pr]].
+Qed.
+Lemma kids_permuted_replace : forall l l' i k k', kids_permuted l l' -> attrs_permuted k k' ->
+  kids_permuted (replace_nth i k l) (replace_nth i k' l').
+Proof.
+  induction l as [|x r IH]; intros [|x' r'] i k k' P Pk; try contradiction; [destruct i; exact I|].
+  cbn [kids_permuted] in P. destruct P as [Px Pr]. destruct i as [|j]; cbn [replace_nth kids_permuted]; [split; assumption | split; [exact Px | apply IH; assumption]].
+Qed.
+Lemma kids_sort_total_nth : forall l i k, kids_sort_total l = true -> nth_error l i = Some k -> all_sort_total k = true.
+Proof.
+  induction l as [|x r IH]; intros i k T N; [destruct i; discriminate N|].
+  cbn [kids_sort_total] in T. apply andb_true_iff in T as [Tx Tr]. destruct i as [|j]; cbn [nth_error] in N; [injection N as <-; exact Tx | eapply IH; eassumption].
+Qed.
+Lemma kids_sort_total_remove : forall l i, kids_sort_total l = true -> kids_sort_total (remove_nth i l) = true.
+Proof.
+  induction l as [|x r IH]; intros i T; [destruct i; reflexivity|].
+  cbn [kids_sort_total] in T. apply andb_true_iff in T as [Tx Tr]. destruct i as [|j]; cbn [remove_nth kids_sort_total]; [exact Tr | rewrite Tx, (IH j Tr); reflexivity].
+Qed.
+Lemma kids_sort_total_replace : forall l i k, kids_sort_total l = true -> all_sort_total k = true -> kids_sort_total (replace_nth i k l) = true.
+Proof.
+  induction l as [|x r IH]; intros i k T Tk; [destruct i; reflexivity|].
+  cbn [kids_sort_total] in T. apply andb_true_iff in T as [Tx Tr]. destruct i as [|j]; cbn [replace_nth kids_sort_total]; [rewrite Tk, Tr; reflexivity | rewrite Tx, (IH j k Tr Tk); reflexivity].
+Qed.
+
+Lemma remove_at_path_permuted : forall p n n' b,
+  all_sort_total n = true -> attrs_permuted n n' -> remove_at_path n p = Some b ->
+  exists b', remove_at_path n' p = Some b' /\ attrs_permuted b b' /\ all_sort_total b = true.
+Proof.
+  induction p as [|i r IH]; intros n n' b T P R; [discriminate R|].
+  destruct n as [sp tg a k| | | | ]; try discriminate R.
+  destruct n' as [sp' tg' a' k'| | | | ]; try contradiction.
+  change (sp = sp' /\ tg = tg' /\ Permutation a a' /\ kids_permuted k k') in P. destruct P as (<- & <- & Pa & Pk).
+  change (sort_total a && kids_sort_total k = true) in T. apply andb_true_iff in T as [Ta Tk].
+  cbn [remove_at_path] in *. destruct (nth_error k i) as [c|] eqn:N; [|discriminate R].
+  destruct (kids_permuted_nth k k' i c Pk N) as (c' & N' & Pc). rewrite N'.
+  destruct c as [csp ctg ca ck| | | | ]; try discriminate R.
+  destruct c' as [csp' ctg' ca' ck'| | | | ]; try contradiction.
+  destruct r as [|j r'].
+  - injection R as <-. eexists. split; [reflexivity|]. split.
+    + change (sp = sp /\ tg = tg /\ Permutation a a' /\ kids_permuted (remove_nth i k) (remove_nth i k')).
+      repeat split; [exact Pa | apply kids_permuted_remove; exact Pk].
+    + change (sort_total a && kids_sort_total (remove_nth i k) = true). rewrite Ta, kids_sort_total_remove by exact Tk. reflexivity.
+  - destruct (remove_at_path (Elem csp ctg ca ck) (j :: r')) as [c2|] eqn:R2; [|discriminate R]. injection R as <-.
+    destruct (IH _ _ c2 (kids_sort_total_nth k i _ Tk N) Pc R2) as (c2' & R2' & Pc2 & Tc2). rewrite R2'.
+    eexists. split; [reflexivity|]. split.
+    + change (sp = sp /\ tg = tg /\ Permutation a a' /\ kids_permuted (replace_nth i c2 k) (replace_nth i c2' k')).
+      repeat split; [exact Pa | apply kids_permuted_replace; assumption].
+    + change (sort_total a && kids_sort_total (replace_nth i c2 k) = true). rewrite Ta, kids_sort_total_replace by assumption. reflexivity.
+Qed.
+
+(* PARTIAL lift of (c): for the usual transform list (enveloped-signature, then an inclusive canonicalisation c0), if the
+   trees on which the reference is evaluated differ by attribute order anywhere (the Signature element included: it is
+   removed before canonicalisation), the canonicaliser is asked about two elements with the SAME canonical bytes -- so the
+   digest compared with DigestValue is the same.  Gap (not proved): that findSignature leaves behind trees that differ by
+   attribute order only, with the same signature path and reference, when it is given such trees. *)
+Theorem digest_input_ignores_attribute_order : forall root1 root2 p r t1 t2 c0 el1 a1,
+  ref_transforms r = [t1; t2] -> tr_alg t1 = alg_enveloped -> c14n_of t2 = Some c0 -> inclusive c0 = true ->
+  all_sort_total root1 = true -> attrs_permuted root1 root2 ->
+  transform root1 p r = Ok (el1, a1) ->
+  exists el2, transform root2 p r = Ok (el2, a1) /\ canon_model a1 el2 = canon_model a1 el1.
+Proof.
+  intros root1 root2 p r t1 t2 c0 el1 a1 HT H1 H2 I T P X.
+  apply (transform_enveloped_then_c14n root1 p r t1 t2 c0 el1 a1 HT H1 H2) in X as [R ->].
+  destruct (remove_at_path_permuted p root1 root2 el1 T P R) as (el2 & R2 & P2 & T2).
+  exists el2. split; [apply (transform_enveloped_then_c14n root2 p r t1 t2 c0 el2 c0 HT H1 H2); split; [exact R2 | reflexivity]|].
+  apply canon_ignores_attribute_order_inclusive; assumption.
+Qed.
+
+(* PARTIAL lift of (a): whatever the trees, if the elements the canonicaliser is asked about differ by comments only and
+   the reference names a without-comments algorithm, the digest input is the same *)
+Theorem digest_input_ignores_comments : forall reparse root1 root2 el1 el2 a,
+  obs_ref_query canon_model reparse root1 = Ok (el1, a) -> obs_ref_query canon_model reparse root2 = Ok (el2, a) ->
+  keeps_comments a = false -> strip_comments el1 = strip_comments el2 ->
+  obs_ref_bytes canon_model reparse root1 = obs_ref_bytes canon_model reparse root2.
+Proof.
+  intros reparse root1 root2 el1 el2 a Q1 Q2 K E. unfold obs_ref_bytes. rewrite Q1, Q2. cbn [bind fst snd].
+  rewrite (canon_same_modulo_comments a el1 el2 K E). reflexivity.
+Qed.
+
+Lemma canon_values_recovered : forall s,
+  valid_xml_text s = true ->
+  canon_text_read (etree_escape CanonText s) = s /\ canon_attr_read (etree_escape CanonAttr s) = s.
+Proof. intros s V. exact (conj (canon_text_recovers_value s V) (canon_attr_recovers_value s V)). Qed.
+
+Definition ex_signed (flip : bool) : node :=
+  Elem "a" "R" ((if flip then @rev attr else fun l => l) [ at_ "" "ID" "_1"; at_ "xmlns" "a" "urn:x:a"; at_ "" "Version" "2.0" ])
+    [ Elem "ds" "Signature" ((if flip then @rev attr else fun l => l) [ at_ "xmlns" "ds" ds_ns; at_ "" "Id" "s" ]) [ Text "..." ];
+      Elem "a" "K" ((if flip then @rev attr else fun l => l) [ at_ "" "z" "1"; at_ "a" "y" "2"; at_ "xml" "lang" "en" ]) [ Text "t" ] ].
+Definition ex_ref : reference :=
+  {| ref_uri := "#_1"; ref_digest_value := ""; ref_digest_alg := "";
+     ref_transforms := [ {| tr_alg := alg_enveloped; tr_prefix_list := None |}; {| tr_alg := alg_c11; tr_prefix_list := None |} ] |}.
+Example digest_input_ignores_attribute_order_example :
+  all_sort_total (ex_signed false) = true /\ attrs_permuted (ex_signed false) (ex_signed true) /\ ex_signed false <> ex_signed true /\
+  (exists el1 el2, transform (ex_signed false) [0%nat] ex_ref = Ok (el1, C11 false) /\
+                   transform (ex_signed true) [0%nat] ex_ref = Ok (el2, C11 false) /\ el1 <> el2 /\
+                   canon_model (C11 false) el1 = canon_model (C11 false) el2 /\
+                   canon_model (C11 false) el1 = Some "<a:R xmlns:a=""urn:x:a"" ID=""_1"" Version=""2.0""><a:K z=""1"" xml:lang=""en"" a:y=""2"">t</a:K></a:R>").
+Proof.
+  split; [vm_compute; reflexivity|]. split.
+  - unfold ex_signed. cbn [attrs_permuted]. repeat split; apply Permutation_rev.
+  - split; [intros H; discriminate H|]. do 2 eexists. split; [vm_compute; reflexivity|]. split; [vm_compute; reflexivity|].
+    split; [intros H; discriminate H|]. split; vm_compute; reflexivity.
 Qed.
